@@ -410,6 +410,80 @@ def run_chain_tamper(rng, depth):
                 except BaseException as e:
                     out.append(dict(desc, what='C02 unexpected %s from %s' % (type(e).__name__, api), key='chain-exc',
                                     props=['C02', 'C18']))
+            # one loader object asked again after it has rejected the tampered Manifest: every later request must be rejected too
+            # (a caller that catches the first mismatch and goes on must not get answers from the rejected file)
+            m = ManifestRecursiveLoader(top, max_jobs=1)
+            calls = [('path', lambda: m.assert_path_verifies(leaf)), ('entry', lambda: m.find_path_entry(leaf)),
+                     ('verify_path', lambda: m.verify_path(leaf)), ('dist', lambda: m.find_dist_entry('nothing-1.tar', dirs[-1])),
+                     ('entry-dict', lambda: m.get_file_entry_dict(dirs[-1])), ('subdir', lambda: m.assert_directory_verifies(dirs[-1]))]
+            rng.shuffle(calls)
+            for pos, (name, fn) in enumerate(calls):
+                try:
+                    fn()
+                    out.append(dict(desc, what='C02 loader reused after a rejection: call %d (%s) answered from the tampered chain (order %s)' % (
+                        pos, name, [c[0] for c in calls]), key='chain-reuse', props=['C02']))
+                    break
+                except ManifestMismatch:
+                    pass
+                except BaseException as e:
+                    out.append(dict(desc, what='C02 unexpected %s from %s on a reused loader' % (type(e).__name__, name), key='chain-exc',
+                                    props=['C02', 'C18']))
+                    break
+            if any(os.path.dirname(p) == dirs[k] for p in m.loaded_manifests):
+                out.append(dict(desc, what='C02 the rejected Manifest of level %d is among the loaded Manifests: %s' % (k, sorted(m.loaded_manifests)),
+                                key='chain-reuse-loaded', props=['C02']))
+        # Manifests that no accepted parent references (dropped next to the registered ones, in another compression format or in
+        # a directory without a Manifest) never influence a lookup or a verdict
+        with open(os.path.join(root, leaf), 'wb') as f:
+            f.write(b'original')
+        rebuild(0)
+        os.makedirs(os.path.join(root, dirs[-1], 'plain'), exist_ok=True)
+        with open(os.path.join(root, dirs[-1], 'plain', 'x'), 'wb') as f:
+            f.write(b'x')
+        rebuild_extra = C.entry_line('DATA', 'plain/x', b'x', ['SHA512'])
+        # (the deepest registered Manifest lists plain/x as well, so that the tree is consistent before the attack)
+        dpath = os.path.join(root, dirs[-1], 'Manifest' + fmts[-1])
+        lines = [' '.join(t) for t in C.read_manifest_entries(dpath)] + [rebuild_extra]
+        C.write_manifest(dpath, lines)
+        for j in range(depth - 1, -1, -1):
+            child = os.path.join(dirs[j + 1], 'Manifest' + fmts[j + 1])
+            with open(os.path.join(root, child), 'rb') as fh:
+                C.write_manifest(os.path.join(root, dirs[j], 'Manifest' + fmts[j]),
+                                 [C.entry_line('MANIFEST', os.path.relpath(child, dirs[j]) if dirs[j] else child, fh.read(), ['SHA512'])])
+        if C.run_cli(['verify', '-j', '1', root]) == 0:
+            with open(os.path.join(root, leaf), 'wb') as f:
+                f.write(b'changed!')
+            with open(os.path.join(root, dirs[-1], 'plain', 'x'), 'wb') as f:
+                f.write(b'changed x')
+            other = [c for c in C.COMPR if c != fmts[-1]][0] if depth else '.gz'
+            C.write_manifest(os.path.join(root, dirs[-1], 'Manifest' + other),
+                             [C.entry_line('DATA', 'data', b'changed!', ['SHA512']), 'DIST evil-1.tar 3 SHA512 00'])
+            C.write_manifest(os.path.join(root, dirs[-1], 'plain', 'Manifest'),
+                             [C.entry_line('DATA', 'x', b'changed x', ['SHA512']), 'DIST evil-2.tar 3 SHA512 00'])
+            desc = {'depth': depth, 'formats': fmts, 'unreferenced': ['Manifest' + other, 'plain/Manifest']}
+            m = ManifestRecursiveLoader(top, max_jobs=1)
+            try:
+                got = [m.find_dist_entry('evil-1.tar', dirs[-1]), m.find_dist_entry('evil-2.tar', os.path.join(dirs[-1], 'plain')),
+                       m.find_dist_entry('evil-2.tar', dirs[-1])]
+                if any(g is not None for g in got):
+                    out.append(dict(desc, what='C02 find_dist_entry answered from a Manifest that nothing references: %r' % (got,),
+                                    key='unreferenced-dist', props=['C02']))
+                dropped = {os.path.normpath(os.path.join(dirs[-1], 'Manifest' + other)), os.path.normpath(os.path.join(dirs[-1], 'plain', 'Manifest'))}
+                stray = sorted(p for p in m.loaded_manifests if os.path.normpath(p) in dropped)
+                if stray:
+                    out.append(dict(desc, what='C02 lookups loaded unreferenced Manifests %s' % stray, key='unreferenced-loaded', props=['C02']))
+                for name, fn in (('path', lambda: m.assert_path_verifies(leaf)),
+                                 ('path-x', lambda: m.assert_path_verifies(os.path.join(dirs[-1], 'plain', 'x'))),
+                                 ('dir', lambda: m.assert_directory_verifies(''))):
+                    try:
+                        fn()
+                        out.append(dict(desc, what='C02 changed file accepted by %s after unreferenced Manifests were dropped into the tree' % name,
+                                        key='unreferenced-accept', props=['C02']))
+                    except ManifestMismatch:
+                        pass
+            except BaseException as e:
+                out.append(dict(desc, what='C02 unexpected %s with unreferenced Manifests in the tree' % type(e).__name__, key='chain-exc',
+                                props=['C02', 'C18']))
     return out
 
 
@@ -486,6 +560,70 @@ def run_fault_injection(rng):
             if outcome == 'returned' and res:
                 out.append({'what': 'C06 scandir(%s) failing with errno %d: verification reported success' % (d, err),
                             'key': 'fault-scandir', 'props': ['C06']})
+    return out, n
+
+
+def run_conflicting_duplicates(rng):
+    """C01: two entries for one file that disagree on a common checksum (or on the size) are never accepted, whatever other
+    checksums either of them carries, in whichever order and Manifest they stand; entries that agree on every common
+    checksum are accepted when the file matches"""
+    from gemato.recursiveloader import ManifestRecursiveLoader
+    from gemato.exceptions import GematoException
+    out, n = [], 0
+    data = b'the real content'
+    stale = b'some old content'
+    names = ['MD5', 'SHA1', 'SHA256', 'SHA512']
+    combos = []
+    for common in ('MD5', 'SHA1', 'SHA512'):
+        later = [h for h in names if h > common]
+        earlier = [h for h in names if h < common]
+        extras = [([], [])]
+        if later:
+            extras += [([later[-1]], []), ([], [later[-1]])]
+        if earlier:
+            extras += [([earlier[0]], [])]
+        for (ea, eb), conflict, swap, placement in itertools.product(extras, (True, False), (False, True),
+                                                                     ('same', 'parent-child', 'child-parent')):
+            combos.append((common, ea, eb, conflict, swap, placement))
+    for common, extra_a, extra_b, conflict, swap, placement in combos:
+        same_size_stale = stale[:len(data)].ljust(len(data), b'x')
+        a = C.entry_line('DATA', 'f', same_size_stale if conflict else data, sorted([common] + extra_a))
+        b = C.entry_line('DATA', 'f', data, sorted([common] + extra_b))
+        if swap:
+            a, b = b, a
+        with C.Scratch() as root:
+            C.make_tree(root, {'pkg/f': data, 'pkg/g': b'g'})
+            g = C.entry_line('DATA', 'g', b'g', ['SHA1'])
+            if placement == 'same':
+                C.write_manifest(os.path.join(root, 'pkg', 'Manifest'), [a, b, g])
+                top = []
+            else:
+                first, second = (a, b) if placement == 'parent-child' else (b, a)
+                C.write_manifest(os.path.join(root, 'pkg', 'Manifest'), [second, g])
+                top = [first.replace('DATA f ', 'DATA pkg/f ', 1)]
+            with open(os.path.join(root, 'pkg', 'Manifest'), 'rb') as fh:
+                top.append(C.entry_line('MANIFEST', 'pkg/Manifest', fh.read(), ['SHA1']))
+            C.write_manifest(os.path.join(root, 'Manifest'), top)
+            results = {}
+            for api in ('dir', 'subdir', 'cli'):
+                try:
+                    if api == 'cli':
+                        results[api] = C.run_cli(['verify', '-j', '1', root]) == 0
+                    else:
+                        m = ManifestRecursiveLoader(os.path.join(root, 'Manifest'), max_jobs=1)
+                        results[api] = bool(m.assert_directory_verifies('' if api == 'dir' else 'pkg'))
+                except GematoException:
+                    results[api] = False
+                except BaseException as e:
+                    results[api] = 'EXC:' + type(e).__name__
+                n += 1
+            want = not conflict
+            bad = {k: v for k, v in results.items() if v != want}
+            if bad:
+                out.append({'what': 'C01 duplicate entries for pkg/f (%s; common checksum %s %s; extra hashes %s / %s): accepted=%r, expected %r' % (
+                    placement, common, 'conflicting' if conflict else 'agreeing', extra_a, extra_b, results, want),
+                    'key': 'duplicates:%s' % ('conflict-accepted' if conflict else 'agreeing-rejected'),
+                    'props': ['C01', 'C18'] if any(isinstance(v, str) for v in bad.values()) else ['C01']})
     return out, n
 
 
@@ -590,6 +728,9 @@ def main():
     v, k = run_manifest_faults(rng)
     viol.extend(v)
     faults += k
+    v, k = run_conflicting_duplicates(rng)
+    viol.extend(v)
+    evals += k
     C.emit({'evaluations': evals + chain + faults, 'distinct_nontrivial': len(distinct),
             'rule': 'random trees (<=5 dirs, depth<=3, names with spaces/Unicode/backslashes, hidden files, IGNOREd dir '
                     'with look-alike sibling, sub-Manifests plain/gz/bz2/lzma/xz, compatible duplicates, MISC/EBUILD types) '
